@@ -65,25 +65,26 @@ func handleSetRange(params internal.HandlerFuncParams) ([]byte, error) {
 		return []byte(fmt.Sprintf(":%d\r\n", len(newStr))), nil
 	}
 
-	strRunes := []rune(str)
+	// Offsets and lengths are in bytes: the value is overwritten byte by byte, whatever it contains.
+	strBytes := []byte(str)
 
 	for i := 0; i < len(newStr); i++ {
-		// If we're still withing the length of the original string, replace the rune in strRunes
+		// If we're still within the length of the original string, replace the byte in strBytes
 		if offset < len(str) {
-			strRunes[offset] = rune(newStr[i])
+			strBytes[offset] = newStr[i]
 			offset += 1
 			continue
 		}
-		// We are past the length of the original string, append the remainder of newStr to strRunes
-		strRunes = append(strRunes, []rune(newStr)[i:]...)
+		// We are past the length of the original string, append the remainder of newStr to strBytes
+		strBytes = append(strBytes, newStr[i:]...)
 		break
 	}
 
-	if err = params.SetValues(params.Context, map[string]interface{}{key: string(strRunes)}); err != nil {
+	if err = params.SetValues(params.Context, map[string]interface{}{key: string(strBytes)}); err != nil {
 		return nil, err
 	}
 
-	return []byte(fmt.Sprintf(":%d\r\n", len(strRunes))), nil
+	return []byte(fmt.Sprintf(":%d\r\n", len(strBytes))), nil
 }
 
 func handleStrLen(params internal.HandlerFuncParams) ([]byte, error) {
